@@ -428,12 +428,6 @@ def _dir_exec(root, target_rel, settings, env, order_key, faults):
         ok = _ListOrder(order_key[1])
     res = cli_run.cli_exec(root, target_rel, settings, cwd_rel=env["cwd"], order_key=ok, faults=faults,
                            tty=env["tty"], argform=env["argform"])
-    res["err_paths"] = cli_run.error_paths(res["err"])
-    if env["argform"] == "rel":
-        # relative argument: error lines name relative paths; normalise to <SBX>/...
-        cwd = os.path.join(os.path.realpath(root), env["cwd"])
-        res["err_paths"] = [p if p.startswith("<SBX>") else "<SBX>/" + os.path.relpath(os.path.normpath(os.path.join(cwd, p)), os.path.realpath(root))
-                            for p in res["err_paths"]]
     return res
 
 
